@@ -195,7 +195,28 @@ def tool_programs():
     return progs
 
 
-TOOL_PROGS = tool_programs()
+# round 5: provider metadata on every response (the loop may read it, it must not buy extra rounds): the stop / finish vocabulary of the
+# common APIs, usage blocks, odd types
+RAW_PAYLOADS = [None, {}, {"stop_reason": "max_tokens"}, {"stop_reason": "tool_use"}, {"stop_reason": "end_turn"}, {"stop_reason": "pause_turn"},
+                {"stop_reason": "refusal"}, {"stop_reason": "stop_sequence"}, {"stop_reason": None}, {"finish_reason": "length"},
+                {"finish_reason": "tool_calls"}, {"finish_reason": "function_call"}, {"finish_reason": "content_filter"}, {"finish_reason": "stop"},
+                {"choices": [{"finish_reason": "length", "message": {"tool_calls": [{}]}}]}, {"finishReason": "MAX_TOKENS"},
+                {"candidates": [{"finishReason": "MAX_TOKENS"}]}, {"error": {"type": "overloaded_error"}}, {"type": "error"}, {"retry": True},
+                {"retry_after": 0}, {"truncated": True}, {"incomplete": True}, {"status": "incomplete", "incomplete_details": {"reason": "max_output_tokens"}},
+                {"usage": {"input_tokens": 0, "output_tokens": 0}}, {"usage": {"output_tokens": 10 ** 9}}, {"continue": True}, {"done": False},
+                {"done_reason": "length"}, {"stop_reason": "max_tokens", "finish_reason": "length", "truncated": True, "retry": True, "done": False}]
+META = [("stub", 1, 0.0), ("", 0, 0.0), ("m", -1, -1.0), ("gpt", 10 ** 12, float("inf")), ("claude", 1024, float("nan")), (None, None, None)]
+
+
+def tool_programs_with_meta():
+    progs = tool_programs()
+    for i in range(1, len(RAW_PAYLOADS)):
+        progs.append({"calls_per_round": [1], "forever": True, "raw": i, "meta": i % len(META)})
+        progs.append({"calls_per_round": [2, 1], "forever": True, "raw": i, "unknown_tool": i % 2 == 0, "raising_tool": i % 3 == 0})
+    return progs
+
+
+TOOL_PROGS = tool_programs_with_meta()
 
 SWEEP = ([("heal", m, i) for m in LIMITS for i in range(len(HEAL_PROGS))]
          + [("swarm", (r, s), i) for r in LIMITS for s in LIMITS for i in range(len(SWARM_PROGS))]
@@ -328,6 +349,10 @@ def run_case(ctx, n):
         prog["duck_calls"] = True
     if rng.random() < 0.08:
         prog["hostile_names"] = True
+    if rng.random() < 0.3:
+        prog["raw"] = rng.randrange(1, len(RAW_PAYLOADS))
+    if rng.random() < 0.1:
+        prog["meta"] = rng.randrange(len(META))
     if rng.random() < 0.4:
         prog["final"] = rng.choice(list(S.TEXTS))
     if rng.random() < 0.3:
@@ -679,7 +704,11 @@ def _case_tool(ctx, max_iter, prog, silent):
     probe_name = "a.*b(c)[d]{0}%s\nprobe\x00" if prog.get("hostile_names") else "probe"
 
     def resp(text):
-        return LLMResponse(content=text, model="stub", tokens_used=1, latency_ms=0.0)
+        model, tokens, latency = META[prog.get("meta", 0)]
+        raw = RAW_PAYLOADS[prog.get("raw", 0)]
+        if raw is not None:
+            ctx.count("responses_with_provider_metadata")
+        return LLMResponse(content=text, model=model, tokens_used=tokens, latency_ms=latency, raw_response=None if raw is None else dict(raw))
 
     def final():
         log["complete"] += 1
